@@ -132,6 +132,13 @@ class TreeGen(object):
     self.r, self.meta, self.lower, self.self_tid, self.gaps = rng, meta, lower, self_tid, gaps
     self.tids = [t['tableId'] for t in meta.user_tables()] + [t['tableId'] for t in meta.user_tables(summary=True)]
     self.env = []       # [(var, tid)]
+    # in a summary table: the source table, reachable as $group
+    self.group_target = None
+    st = meta.table_by_id.get(self_tid)
+    if st is not None and st.get('summarySourceTable'):
+      for c in meta.by_table[st['id']]:
+        if c['colId'] == 'group' and c['type'].startswith('RefList:'):
+          self.group_target = c['type'][8:]
 
   def cols(self, tid):
     t = self.meta.table_by_id.get(tid)
@@ -151,7 +158,52 @@ class TreeGen(object):
       return ('dollar', col)
     return ('col', base, col)
 
+  # typed mode (the evaluation tie): lookup keys have the type of their column and `<` compares numbers with numbers
+  # or texts with texts, so that the engine's key conversions and the corner cases of Python's rich comparison
+  # (which the model does not cover) stay out of the way
+  typed = False
+
+  def int_expr(self, depth):
+    r = self.r
+    opts = [('int', r.choice([0, 1, 2, 3, 5])), ('id', ('rec',))]
+    opts += [self.attr(self.self_tid, ('rec',), c['colId']) for c in self.cols(self.self_tid)
+             if c['type'] == 'Int' and not c['isFormula']]
+    opts += [('id', ('var', v)) for v, _t in self.env]
+    if depth > 0:
+      opts.append(('p1', 0, self.recs_expr(r.choice(self.tids), depth - 1)))
+    return r.choice(opts)
+
+  def text_expr(self, depth):
+    r = self.r
+    opts = [('str', r.choice(['a', 'b', '']))]
+    opts += [self.attr(self.self_tid, ('rec',), c['colId']) for c in self.cols(self.self_tid)
+             if c['type'] == 'Text' and not c['isFormula']] * 2
+    return r.choice(opts)
+
+  def typed_lt(self, depth):
+    k = self.r.random()
+    if k < 0.45:
+      return ('p2', 2, self.int_expr(depth - 1), self.int_expr(depth - 1))
+    if k < 0.85:
+      return ('p2', 2, self.text_expr(depth - 1), self.text_expr(depth - 1))
+    return ('p2', 2, self.int_expr(depth - 1), self.text_expr(depth - 1))     # TypeError
+
+  def typed_keys(self, tid, depth):
+    ks = []
+    cs = [c for c in self.cols(tid) if not c['isFormula'] and c['type'].split(':')[0] in ('Int', 'Text', 'Ref')]
+    for c in self.r.sample(cs, min(len(cs), self.r.choice([0, 1, 1, 1, 2]))):
+      if c['type'] == 'Int':
+        e = self.int_expr(depth - 1)
+      elif c['type'] == 'Text':
+        e = self.text_expr(depth - 1)
+      else:
+        e = self.rec_expr(c['type'][4:], depth - 1) or ('int', self.r.choice([0, 1, 2]))
+      ks.append((c['colId'], e))
+    return ks
+
   def keys(self, tid, depth):
+    if self.typed:
+      return self.typed_keys(tid, depth)
     cs = self.cols(tid)
     ks = []
     for c in self.r.sample(cs, min(len(cs), self.r.choice([0, 1, 1, 1, 2]))):
@@ -193,7 +245,10 @@ class TreeGen(object):
     base = self.rec_expr(tid, depth - 1)
     if base is None:
       return None
-    gb = [c['colId'] for c in self.r.sample(self.cols(tid), min(len(self.cols(tid)), self.r.choice([0, 0, 1])))]
+    gcs = self.cols(tid)
+    if self.typed:      # group_by is a lookup by the record's own values: hashable, column-typed keys only
+      gcs = [c for c in gcs if not c['isFormula'] and c['type'].split(':')[0] in ('Int', 'Text', 'Ref')]
+    gb = [c['colId'] for c in self.r.sample(gcs, min(len(gcs), self.r.choice([0, 0, 1])))]
     ob = self.ob(tid, allow_empty=False)
     return ('pn', self.r.choice([0, 1]), base, gb, ob) if ob else base
 
@@ -203,7 +258,11 @@ class TreeGen(object):
       opts += ['chain', 'chain']
     if self.refs_to(tid, 'Ref') and depth > 1:
       opts += ['setchain']
+    if tid == self.group_target:
+      opts += ['group', 'group', 'group']
     o = self.r.choice(opts)
+    if o == 'group':
+      return ('dollar', 'group')
     if o == 'lookup':
       return ('lookup', False, tid, self.keys(tid, depth), self.ob(tid))
     if o == 'all':
@@ -249,7 +308,14 @@ class TreeGen(object):
       if r.random() < 0.3:
         body = ('p2', 0, body, self.scalar(depth - 2))
       cond = None
-      if r.random() < 0.4:
+      if r.random() < 0.4 and self.typed:
+        ic = [c for c in cs if c['type'] == 'Int' and not c['isFormula']]
+        if ic and r.random() < 0.5:
+          cond = ('p2', 2, ('col', ('var', v[0]), r.choice(ic)['colId']), self.int_expr(depth - 2))
+        else:
+          cond = ('p2', 1, self.attr(tid, ('var', v[0]), r.choice(cs)['colId']) if cs else ('int', 1),
+                  self.scalar(depth - 2))
+      elif r.random() < 0.4:
         cond = ('p2', r.choice([1, 2]), self.attr(tid, ('var', v[0]), r.choice(cs)['colId']) if cs else ('int', 1),
                 self.scalar(depth - 2))
       self.env.pop()
@@ -261,7 +327,10 @@ class TreeGen(object):
         return self.scalar(0)
       return ('p1', 2, ('col', self.recs_expr(tid, depth - 1), r.choice(cs)['colId']))
     if o == 'p2':
-      return ('p2', r.choice([0, 1, 2, 3]), self.scalar(depth - 1), self.scalar(depth - 1))
+      op = r.choice([0, 1, 2, 3])
+      if op == 2 and self.typed:
+        return self.typed_lt(depth)
+      return ('p2', op, self.scalar(depth - 1), self.scalar(depth - 1))
     if o == 'if':
       return ('if', self.scalar(depth - 1), self.scalar(depth - 1), self.scalar(depth - 1))
     base = self.rec_expr(tid, depth - 1)
